@@ -12,6 +12,7 @@ UNKNOWN_ID = 'urn:uuid:00000000-0000-0000-0000-00000000dead'
 class FakeSock:
     def __init__(self):
         self.inb = []; self.eof = False; self.err = False; self.out = bytearray(); self.closed = False
+        self.nwrites = 0; self.wfail = None
     def readable(self):
         return (bool(self.inb) or self.eof or self.err) and not self.closed
 
@@ -57,15 +58,28 @@ def install():
     """Rebind the module-level names ncclient imported (no source hooks)."""
     import ncclient.transport.session as ses, ncclient.operations.rpc as rpc
     if not _installed:
-        _installed.update(ses=(ses.Lock, ses.Event, ses.Queue, ses.selectors), rpc=(rpc.Lock, rpc.Event, rpc.RPCReplyListener.creation_lock))
+        _installed.update(ses=(ses.Lock, ses.Event, ses.Queue, ses.selectors), rpc=(rpc.Lock, rpc.Event, rpc.RPCReplyListener.creation_lock),
+                          listener=rpc.RPCReplyListener)
+        base = rpc.RPCReplyListener
+        class LtsListener(base):
+            """The real listener class; only its pending table is replaced by a logging dict when an
+            instance is created (the creation itself, with its locks, is the library's code)."""
+            def __new__(cls, session, device_handler):
+                inst = base.__new__(cls, session, device_handler)
+                if type(inst._id2rpc) is dict:
+                    inst._id2rpc = LDict(inst._id2rpc)
+                return inst
+        _installed['LtsListener'] = LtsListener
     ses.Lock, ses.Event, ses.Queue, ses.selectors = SLock, SEvent, SQueue, _SelMod
     rpc.Lock, rpc.Event = SLock, SEvent
-    rpc.RPCReplyListener.creation_lock = SLock()
+    rpc.RPCReplyListener = _installed['LtsListener']
+    _installed['listener'].creation_lock = SLock()
 
 def uninstall():
     import ncclient.transport.session as ses, ncclient.operations.rpc as rpc
     if _installed:
         ses.Lock, ses.Event, ses.Queue, ses.selectors = _installed['ses']
+        rpc.RPCReplyListener = _installed['listener']
         rpc.Lock, rpc.Event, rpc.RPCReplyListener.creation_lock = _installed['rpc']
 
 def make_session_class():
@@ -94,7 +108,15 @@ def make_session_class():
         def _send_ready(self):
             return True
         def _transport_write(self, data):
-            self._S.point('write'); self._sock.out += data; self._S.effect('write', bytes(data)); return len(data)
+            self._S.point('write')
+            s = self._sock
+            s.nwrites += 1
+            if s.wfail is not None and s.nwrites > s.wfail[0]:
+                if s.nwrites == s.wfail[0] + 1 and s.wfail[1] > 0 and len(data) > 1:
+                    n = min(s.wfail[1], len(data) - 1)          # a short write first ...
+                    s.out += data[:n]; self._S.effect('write', bytes(data[:n])); return n
+                self._S.effect('wfail'); return 0                 # ... then the transport accepts nothing more
+            s.out += data; self._S.effect('write', bytes(data)); return len(data)
         def _transport_read(self):
             self._S.point('read')
             s = self._sock
@@ -137,11 +159,11 @@ class Scenario:
         install()
         dh = make_device_handler({'name': spec.get('profile', 'default')})
         sock = FakeSock()
+        if spec.get('wfail') is not None:
+            sock.wfail = tuple(spec['wfail'])
         ses = make_session_class()(dh, sock)
         ses.add_listener(NotificationHandler(ses._notification_q))
-        lst = RPCReplyListener(ses, dh)
-        lst._id2rpc = LDict()
-        self.ses, self.sock, self.listener = ses, sock, lst
+        self.ses, self.sock = ses, sock
         real_run = ses.run
         def wrun():
             try:
@@ -211,7 +233,10 @@ class Scenario:
                     nreq = sum(1 for ops in spec['clients'] for op in ops if op[0] == 'rpc')
                     S.point('srv', enabled=lambda: len(received()) >= nreq); continue
                 else:
-                    S.point('srv')
+                    # the server speaks only after it has received a request (then the reply listener exists), except to close
+                    S.point('srv', enabled=(None if k in ('eof', 'err') else (lambda: len(received()) >= 1)))
+                    if k not in ('eof', 'err') and len(received()) < 1:
+                        return
                     x = {'reply_noid': reply_xml(None), 'reply_unknown': reply_xml(UNKNOWN_ID),
                          'notif': notif_xml(act[1]) if k == 'notif' else None, 'other': other_xml(None)}.get(k)
                 if k == 'eof':
@@ -233,7 +258,9 @@ class Scenario:
         self.connected_end = ses._connected
         self.worker_done = S.threads['W']['done']
         self.nq_left = [n.notification_xml for n in ses._notification_q.d]
-        self.pending_end = list(dict.keys(lst._id2rpc))
+        from ncclient.operations.rpc import RPCReplyListener as _L
+        self.reply_listeners = [l for l in ses._listeners if isinstance(l, _installed['listener'])]
+        self.pending_end = [k for l in self.reply_listeners for k in dict.keys(l._id2rpc)]
         # let every parked thread run to its end outside the scheduler
         self._drain(S, ses, sock)
         self.S, self.outcomes, self.rpcs = S, outcomes, rpcs
@@ -308,6 +335,9 @@ class Scenario:
                 labels.append([11])
             elif k == 'read' and e[2] == 'err':
                 labels.append([12])
+            elif k == 'wfail':
+                if not labels or labels[-1] != [20]:
+                    labels.append([20])
             elif k == 'tvalues':
                 labels.append([13, [idn(x) for x in e[2]]])
             elif k == 'tclear':
